@@ -1,6 +1,8 @@
 //! Shared model code of the verification harness for varlink/rust.
 pub mod classify;
 pub mod ctx;
+pub mod idl;
+pub mod isolate;
 pub mod jsongen;
 pub mod pt;
 pub mod sock;
